@@ -136,9 +136,22 @@ pub async fn c07(seed: u64, thorough: bool) {
     let mut one = |chunks: Vec<(u64, usize)>, frag: bool, rng: &mut Rng| {
         let dlen = chunks.iter().map(|(o, s)| o + *s as u64).max().unwrap_or(0) as usize + 3;
         let runs = oracle_runs(&chunks);
+        // fragmentation: none, random, or *aligned with the chunk boundaries inside the run*
+        // (a body frame that ends exactly where a chunk ends, with the rest still in flight)
+        let aligned = frag && rng.chance(1, 2);
+        let mut idx = 0usize;
         let script: Vec<Resp> = runs
             .iter()
-            .map(|(_, s)| Resp::Full(if frag { rand_frags(rng, *s as usize) } else { vec![] }))
+            .map(|(_, s)| {
+                let mut fr = Vec::new();
+                let mut left = *s as usize;
+                while left > 0 && idx < chunks.len() {
+                    fr.push(chunks[idx].1);
+                    left -= chunks[idx].1.min(left);
+                    idx += 1;
+                }
+                Resp::Full(if aligned { fr } else if frag { rand_frags(rng, *s as usize) } else { vec![] })
+            })
             .collect();
         (chunks, dlen, runs, script)
     };
@@ -153,7 +166,7 @@ pub async fn c07(seed: u64, thorough: bool) {
                 .filter(|i| mask >> i & 1 == 1)
                 .map(|i| lay[i])
                 .collect();
-            let (chunks, dlen, runs, script) = one(chunks, mask % 7 == 0, &mut rng);
+            let (chunks, dlen, runs, script) = one(chunks, mask % 5 == 0, &mut rng);
             let req = format!(
                 "http 0 {} {} {}",
                 dlen,
